@@ -19,7 +19,7 @@ TEXTS = [
 ]
 TEXTS += ["select 1 from t where a = 2\n", "select 1 from t where a = 2\n", TEXTS[0]]
 N_SOURCES = len(TEXTS)
-TEXTS += ["-- file backed\nselect a, b\nfrom t;\n", "<root><a x='1'/></root>\n"]
+TEXTS += ["-- file backed\nselect a, b\nfrom t;\n", "<root><a x='1'/></root>\n", ""]  # 8: a text source whose text is empty
 N_SOURCES = len(TEXTS)
 # 6: TextFileSource over a real file (get_raw reads it lazily); 7: FileSource (raw bytes: code origins have no raw text)
 FILE_SOURCES = {6: ("TextFileSource", "text_source_6.sql"), 7: ("FileSource", "binary_source_7.xml")}
@@ -136,7 +136,7 @@ def gen_origin(rng, allow_multi: bool = True, p_no: float = 0.4) -> tuple:
     if r < 0.55:
         s = rng.randrange(N_SOURCES)
         n = len(TEXTS[s])
-        a = rng.randrange(0, min(n, 12))
+        a = rng.randrange(0, min(n, 12)) if n else 0
         b = rng.randrange(a, min(n, a + 8) + 1)
         return ("code", s, a, min(b, n))
     if r < 0.7:
